@@ -90,7 +90,8 @@ class _Validator:
         self.links = {}                           # (type, key) -> [n starts, n ends, first line]
         self.names = {}                           # container name -> number of containers created with it (an actor that changes host gets a new one)
         self.deferred = []                        # (sig, msg, container name): the signature depends on what happens later
-        self.last = None                          # (time, line, kind) of the running maximum
+        self.max_buf = self.max_create = self.max_destroy = None      # (time, line, kind): running maxima of buffered / directly written lines
+        self.flushes_visible = True
         self.stats = {"events": 0, "containers": 0, "destroyed": 0, "push": 0, "pop": 0, "links": 0, "variables": 0, "kinds": set(),
                       "max_depth": 0, "created_after_start": 0, "new_events": 0, "remarks": {}}
 
@@ -115,6 +116,54 @@ class _Validator:
             return None
         return c
 
+    def check_time(self, ln, name, t):
+        """Timestamps never decrease along the file.  A decrease is classified by what the writer of src/instr/instr_paje_trace.cpp can and
+        cannot do (unchanged code): events wait in a buffer kept sorted by insertion; the buffer is written (a) entirely just before every
+        container destruction (the PajeDestroyContainer line follows at once) and at the start / end of the simulation, (b) at every time
+        advance up to the horizon H = date of the last container destruction; PajeCreateContainer / PajeDestroyContainer lines are written
+        directly, at the current date.  Hence, among BUFFERED events, a line X may only follow a line Y with a larger stamp when Y was
+        written by an earlier flush than X, i.e. stamp(Y) <= H(X) = the largest PajeDestroyContainer date written before X (0 if none):
+          * stamp(Y) <= H(X): X was created after Y was written, with a stamp in the past: the retroactive resource-utilisation events
+            (signature timestamps-decrease:retroactive-variable-event when X is a variable event);
+          * stamp(Y) >  H(X): X and Y were in the buffer together and came out in the wrong order: timestamps-decrease:buffer-order
+            (never with the unchanged code);
+          * X only lies behind a directly written line: behind a PajeDestroyContainer -> retroactive again; behind a PajeCreateContainer ->
+            timestamps-decrease:around-PajeCreateContainer.
+        When the destructions are not written (tracing/disable-destroy) although containers go during the run (`flushes_visible` False), H is
+        unknown: every decrease of a variable event gets the wider signature timestamps-decrease:retroactive-variable-event:flush-dates-unknown."""
+        add = self.add
+        var = name in ("PajeSetVariable", "PajeAddVariable", "PajeSubVariable")
+        direct = name in ("PajeCreateContainer", "PajeDestroyContainer")
+        mb, mc, md = self.max_buf, self.max_create, self.max_destroy
+        if direct:
+            worst = max([m for m in (mb, mc, md) if m is not None], default=None)
+            if worst is not None and t < worst[0]:
+                add("timestamps-decrease:%s-after-%s" % (name, worst[2]), "line %d: %s at %r follows line %d (%s) at %r" % ((ln, name, t) + (worst[1], worst[2], worst[0])))
+            if name == "PajeCreateContainer":
+                if mc is None or t >= mc[0]:
+                    self.max_create = (t, ln, name)
+            elif md is None or t >= md[0]:
+                self.max_destroy = (t, ln, name)
+            return
+        horizon = md[0] if md is not None else 0.0
+        if mb is not None and t < mb[0]:
+            where = "line %d: %s at %r follows line %d (%s) at %r; last destruction written before: %r" % (ln, name, t, mb[1], mb[2], mb[0], horizon)
+            if not self.flushes_visible and var:
+                add("timestamps-decrease:retroactive-variable-event:flush-dates-unknown", where)
+            elif mb[0] > horizon:
+                add("timestamps-decrease:buffer-order", where + " (both events were in the buffer together)")
+            elif var:
+                add("timestamps-decrease:retroactive-variable-event", where)
+            else:
+                add("timestamps-decrease:%s-after-%s" % (name, mb[2]), where)
+        elif md is not None and t < md[0]:
+            where = "line %d: %s at %r follows line %d (%s) at %r" % (ln, name, t, md[1], md[2], md[0])
+            add("timestamps-decrease:retroactive-variable-event" if var else "timestamps-decrease:%s-after-%s" % (name, md[2]), where)
+        elif mc is not None and t < mc[0]:
+            add("timestamps-decrease:around-PajeCreateContainer", "line %d: %s at %r follows line %d (%s) at %r" % (ln, name, t, mc[1], mc[2], mc[0]))
+        if mb is None or t >= mb[0]:
+            self.max_buf = (t, ln, name)          # the running maximum: one misplaced block is reported against the same line
+
     def any_type(self, alias):
         return alias in self.vtypes or alias in self.stypes or alias in self.etypes or alias in self.ltypes or alias in self.ctypes
 
@@ -128,17 +177,7 @@ class _Validator:
             except ValueError:
                 add("timestamp-malformed", "line %d: %r" % (ln, f["Time"]))
                 return
-            if self.last is not None and t < self.last[0]:
-                lt, ll, lk = self.last
-                if lk == "PajeCreateContainer" or name == "PajeCreateContainer":
-                    add("timestamps-decrease:around-PajeCreateContainer", "line %d: %s at %r follows line %d (%s) at %r" % (ln, name, t, ll, lk, lt))
-                elif name in ("PajeSetVariable", "PajeAddVariable", "PajeSubVariable"):
-                    # resource utilisation is traced retroactively (from the action's last update to now)
-                    add("timestamps-decrease:retroactive-variable-event", "line %d: %s at %r follows line %d (%s) at %r" % (ln, name, t, ll, lk, lt))
-                else:
-                    add("timestamps-decrease:%s-after-%s" % (name, lk), "line %d: %s at %r follows line %d (%s) at %r" % (ln, name, t, ll, lk, lt))
-            else:
-                self.last = (t, ln, name)          # the running maximum: one misplaced block is reported against the same line
+            self.check_time(ln, name, t)
         if name == "PajeDefineContainerType":
             if f["Type"] not in self.ctypes:
                 add("undefined-type:" + name, "line %d: parent type %r is not defined" % (ln, f["Type"]))
@@ -290,9 +329,11 @@ class _Validator:
             self.add(("host-change:" if self.names.get(nm, 0) > count_then else "") + sig, msg, nm)
 
 
-def validate(text, max_problems=30):
+def validate(text, max_problems=30, flushes_visible=True):
+    """flushes_visible=False: container destructions happen during the run but are not written (tracing/disable-destroy), see check_time"""
     tr = parse(text)
     v = _Validator(max_problems)
+    v.flushes_visible = flushes_visible
     v.bad.extend((a, b, None) for a, b in tr.problems[:max_problems])
     for ln, name, f in tr.events:
         try:
